@@ -28,7 +28,7 @@ FUNCS = ["beyond.io.ccsds.ccsds:dumps", "beyond.io.ccsds.ccsds:loads", "beyond.i
 STUBS = ["none: real StateVector / Orbit / Ephem / Cov / maneuver objects, real lxml; the numeric payload is concrete (distinct values per slot)"]
 ASSUMPTIONS = ["payload values fixed per slot (coordinates, covariance entries, delta-v, epochs): the symbolic part is the structure of the message",
                "written precision: 1 mm, 1 mm/s, 1 microsecond, 13 significant digits for covariance entries"]
-OUTSIDE = ["TDM messages", "arbitrary numeric payload (floating-point formatting of every value)", "XSD validity of the XML output",
+OUTSIDE = ["arbitrary numeric payload (floating-point formatting of every value)", "XSD validity of the XML output",
            "frames with a non-Earth centre"]
 SCALES = ["UTC", "TAI", "TT"]
 FRAMES = ["EME2000", "TEME", "ITRF"]
@@ -291,6 +291,85 @@ def omm_group():
     return _run_group("omm", body, "OMM: mean elements of a TLE orbit (2 objects), covariance or not, user-defined fields or not, KVN and XML")
 
 
+def tdm_group():
+    """TDM: a measurement set (any non-empty subset of Range / Azimut / Elevation / Doppler, 1 or 2 observations of each, one-way
+    or two-way path, optionally a second path = second segment, UTC or TAI) written and read back: same types, paths, epochs and
+    values to the written precision (1 mm for ranges and range rates, 0.01 deg for angles); KVN and XML decode alike"""
+    from beyond.io import ccsds
+    from beyond.dates import Date
+    from beyond.utils.measures import MeasureSet, Range, Azimut, Elevation, Doppler
+    import datetime
+    KINDS = [Range, Azimut, Elevation, Doppler]
+    VALS = {Range: 1234567.891, Azimut: -1.2345, Elevation: 0.4567, Doppler: -3456.789}
+    TOL = {Range: 1.1e-3, Azimut: 1e-4, Elevation: 1e-4, Doppler: 1.1e-3}
+
+    def body():
+        fmt = ["kvn", "xml"][choice("fmt", 2)]
+        mask = 1 + choice("types", 15)                     # non-empty subset of the four measure types
+        nobs = 1 + choice("nobs", 2)
+        two_way = choice("two_way", 2)
+        second = choice("second_path", 2)
+        scale = ["UTC", "TAI"][choice("scale", 2)]
+        d0 = Date(2016, 5, 5, 12, 30, 15, 123456, scale=scale)
+        paths = [["STA1", "2016-001A"] + (["STA1"] if two_way else [])] + ([["STA2", "2016-001A", "STA2"]] if second else [])
+        ms = MeasureSet([])
+        for pi, path in enumerate(paths):
+            for k in range(nobs):
+                date = d0 + datetime.timedelta(seconds=10.5 * k + 100 * pi)
+                for j, cls in enumerate(KINDS):
+                    if mask & (1 << j):
+                        ms.append(cls(path, date, VALS[cls] * (1 + 0.01 * k + 0.1 * pi)))
+        cfg = dict(fmt=fmt, types=[c.__name__ for j, c in enumerate(KINDS) if mask & (1 << j)], nobs=nobs, two_way=two_way,
+                   second_path=second, scale=scale)
+        try:
+            text = ccsds.dumps(ms, fmt=fmt)
+            back = ccsds.loads(text)
+            other = ccsds.loads(ccsds.dumps(ms, fmt="xml" if fmt == "kvn" else "kvn"))
+            again = ccsds.dumps(_flatten(back), fmt=fmt)
+        except Exception as e:  # noqa
+            return cfg, f"{type(e).__name__}: {e}"
+        errs = _cmp_ms(ms, _flatten(back), TOL, "tdm") + [f"kvn/xml: {e}" for e in _cmp_ms(_flatten(back), _flatten(other), TOL, "tdm")]
+        strip = lambda t: "\n".join(l for l in t.splitlines() if "CREATION_DATE" not in l)
+        if strip(again) != strip(text):
+            errs.append("what was read cannot be written again identically")
+        return cfg, ("; ".join(errs[:3]) if errs else None)
+    return _run_group("tdm", body, "TDM: measurement sets of Range / Azimut / Elevation / Doppler observations, one-way or two-way, one or "
+                      "two paths, UTC or TAI, KVN and XML")
+
+
+def _flatten(x):
+    """loads() returns one MeasureSet, or a list of them when the message has several segments"""
+    from beyond.utils.measures import MeasureSet
+    if isinstance(x, MeasureSet):
+        return x
+    out = MeasureSet([])
+    for s_ in x:
+        out.extend(s_)
+    return out
+
+
+def _cmp_ms(a, b, TOL, what):
+    errs = []
+    if len(a) != len(b):
+        return [f"{what}: {len(a)} observations -> {len(b)}"]
+    key = lambda m: (tuple(m.path), type(m).__name__, m.date)
+    for m, n in zip(sorted(a, key=key), sorted(b, key=key)):
+        if type(m).__name__ != type(n).__name__:
+            errs.append(f"{what}: {type(m).__name__} -> {type(n).__name__}")
+            continue
+        if tuple(m.path) != tuple(n.path):
+            errs.append(f"{what}: path {m.path} -> {n.path}")
+        if abs((m.date - n.date).total_seconds()) > 1.5e-6 or m.date.scale.name != n.date.scale.name:
+            errs.append(f"{what}: epoch {m.date} -> {n.date}")
+        dv = abs(m.value - n.value)
+        if type(m).__name__ in ("Azimut", "Elevation"):
+            dv = abs((m.value - n.value + math.pi) % (2 * math.pi) - math.pi)
+        tol = [t for c, t in TOL.items() if c.__name__ == type(m).__name__][0]
+        if dv > tol:
+            errs.append(f"{what}: {type(m).__name__} value {m.value!r} -> {n.value!r}")
+    return errs
+
+
 # --------------------------------------------------------------------------- driver
 BODIES = {}
 
@@ -348,7 +427,7 @@ def _run_group(gname, body, desc):
 
 
 def groups(tier):
-    g = {"oem": oem_group, "omm": omm_group}
+    g = {"oem": oem_group, "omm": omm_group, "tdm": tdm_group}
     for f in ("kvn", "xml"):
         for k in (0, 1):
             g[f"opm_{f}_{'kep' if k else 'nokep'}"] = (lambda f=f, k=k: opm_group(f, k, tier))
@@ -367,7 +446,7 @@ def replay(ob, model):
                 _, f, k = gname.split("_")
                 cfg, err = opm_group(f, 1 if k == "kep" else 0)
             else:
-                cfg, err = {"oem": oem_group, "omm": omm_group}[gname]()
+                cfg, err = {"oem": oem_group, "omm": omm_group, "tdm": tdm_group}[gname]()
         finally:
             FORCED.clear()
         return {"reproduced": err is not None, "signature": f"CCSDS {rp['group'].upper()} round trip: {(err or rp['err']).split(':')[0][:60]}",
